@@ -300,6 +300,7 @@ func (self Value) getByPath(pathes ...Path) (Value, []int) {
 	size := 0
 	desc := self.Desc
 	isRoot := self.IsRoot
+	isPacked := false // whether the node found last is an element inside packed bytes, which has no tag
 	if len(pathes) == 0 {
 		return self, address
 	}
@@ -318,6 +319,7 @@ func (self Value) getByPath(pathes ...Path) (Value, []int) {
 	}
 
 	for i, path := range pathes {
+		isPacked = false
 		switch path.t {
 		case PathFieldId:
 			id := path.id()
@@ -370,7 +372,12 @@ func (self Value) getByPath(pathes ...Path) (Value, []int) {
 			}
 		case PathIndex:
 			elementWireType := desc.Elem().WireType()
-			isPacked := desc.IsPacked()
+			isPacked = desc.IsPacked()
+			if isPacked {
+				// scalar elements are not always packed ([packed = false]): the wire type of the tag tells the layout
+				_, wt, _, _ := p.ConsumeTagWithoutMove()
+				isPacked = wt == proto.BytesType
+			}
 			start, err = searchIndex(&p, path.int(), elementWireType, isPacked, desc.BaseId())
 			tt = desc.Elem().Type()
 			if err == errNotFound {
@@ -439,7 +446,7 @@ func (self Value) getByPath(pathes ...Path) (Value, []int) {
 		var skipType proto.WireType
 		
 		// only packed list element no tag to skip
-		if desc.IsPacked() == false {
+		if isPacked == false {
 			if _, _, _, err := p.ConsumeTag(); err != nil {
 				return errValue(meta.ErrRead, "invalid field tag.", err), address
 			}
